@@ -234,6 +234,63 @@ fn late_informant(b: &mut u64, seed: u64, out: &mut Out, rng: &mut Rng, rounds: 
     }
 }
 
+/// The renamed informant: as above, but the only peer that lists Z - R, one of the near peers - is advertised by everybody under
+/// an id it no longer uses (it restarted on the same port, or took its BEP42 id once it learnt its address): R answers under its
+/// new id, well in time. Its answer counts like any other: the lookup learns Z from it and asks Z.
+fn renamed_informant(b: &mut u64, seed: u64, out: &mut Out, rng: &mut Rng, rounds: u64) {
+    use crate::fakenet::*;
+    use crate::sim::*;
+    use std::net::SocketAddrV4;
+    for r in 0..rounds {
+        let target = rng.id();
+        let share = |bits: usize, rng: &mut Rng| -> [u8; 20] {
+            let mut id = rng.id();
+            for bit in 0..bits {
+                let (by, m) = (bit / 8, 0x80u8 >> (bit % 8));
+                id[by] = (id[by] & !m) | (target[by] & m);
+            }
+            let (by, m) = (bits / 8, 0x80u8 >> (bits % 8));
+            id[by] = (id[by] & !m) | (!target[by] & m);
+            id
+        };
+        let (nf, nn) = (10usize, 22usize);
+        let mut ids: Vec<[u8; 20]> = (0..nf).map(|_| share(4, rng)).collect();
+        ids.extend((0..nn).map(|_| share(12, rng)));
+        ids.push(share(30, rng)); // Z
+        let z = nf + nn;
+        let r_idx = nf + (r as usize % nn);
+        let old_id = share(12, rng);
+        let all: Vec<([u8; 20], SocketAddrV4)> = ids.iter().enumerate().map(|(i, id)| (*id, SocketAddrV4::new(fake_ip(i), 6881))).collect();
+        // what everybody advertises: R under its old id
+        let mut adv = all.clone();
+        adv[r_idx].0 = old_id;
+        let far = crate::krpc::compact_nodes(&adv[..nf]);
+        let near = crate::krpc::compact_nodes(&adv[nf..z]);
+        let near_z = crate::krpc::compact_nodes(&adv[nf..]);
+        let mut sim = Sim::new(seed ^ (r * 43 + 17), NetCfg { lat_min_ms: 5, lat_max_ms: 9, ..Default::default() });
+        sim.record = true;
+        let fnet = FakeNet::install(&mut sim, &ids, Box::new(move |me, m, w| {
+            let q = m.q.clone().unwrap_or_default();
+            if !(q == "find_node" || q == "get" || q == "get_peers" || q == "get_signed_peers") {
+                return Reply::Default;
+            }
+            if m.target() != Some(target) {
+                return Reply::One(lookup_reply(&far, me, m, w, &[], false), 5);
+            }
+            let listed = if me.idx == r_idx { &near_z } else { &near };
+            Reply::One(lookup_reply(listed, me, m, w, &[], q != "find_node"), 5)
+        }));
+        let boot: Vec<String> = fnet.bootstrap().into_iter().take(nf).collect();
+        let c = sim.add_node(NodeOpts::client(private_ip(3), &boot));
+        sim.run_for(2500);
+        let mut net = Net { sim, servers: vec![], clients: vec![c], boot: vec![], spec: NetSpec { servers: ids.len(), clients: 1, plan: "private".into(), join: "renamed_informant".into(), dead_bootstrap: 0, seed } };
+        let kind = ["closest", "find_node", "put", "peers"][r as usize % 4];
+        let ev = one_lookup(&mut net, *b, c, kind, target);
+        out.line(&ev);
+        *b += 1;
+    }
+}
+
 /// One real client among fake peers that form a CHAIN towards the target: a peer only lists the few peers just closer than
 /// itself, in every kind of answer a lookup can receive (nodes only, no value, a value, "no more recent value", peers), so
 /// reaching the closest peers depends on merging the `nodes` of each answer kind.  Requests for other targets (the client's
@@ -523,6 +580,7 @@ pub fn run(args: &Args) -> i32 {
         mixed(&mut b, seed, &mut out, &mut rng, if thorough { 90 } else { 18 });
         slowtree(&mut b, seed, &mut out, &mut rng, if thorough { 600 } else { 80 });
         late_informant(&mut b, seed, &mut out, &mut rng, if thorough { 80 } else { 12 });
+        renamed_informant(&mut b, seed, &mut out, &mut rng, if thorough { 88 } else { 22 });
     }
     out.finish();
     if let Some(p) = args.get("summary") {
